@@ -17,8 +17,7 @@ EXTENDS Gen, Json
 
 VARIABLES T, kind
 
-MutTags == {"list", "dict", "set", "deque", "OrderedDict", "defaultdict", "Counter", "ChainMap", "bytearray", "obj"}
-Dflt(v) == IF v[1] \in MutTags THEN <<"fac", v>> ELSE <<"val", v>>
+Dflt(v) == AsDflt(v)
 Nested == <<"dc", "Nst", << <<"p", <<"date">>, <<"req">>, <<>> >>, <<"q", <<"int">>, <<"val", I(1)>>, <<>> >> >>, << <<"mixin", "plain">> >> >>
 SubjTypes == (Leaves \ { <<"none">>, <<"any">> }) \cup { Nested }
              \cup { t \in Ctor1(RepLeaves, RepKeys) : t[1] \in {"list", "vtuple", "set", "frozenset", "dict", "tuple", "ntuple", "tdict", "deque", "odict", "opt", "newtype", "utuple"} }
